@@ -13,6 +13,7 @@ package dtls
 
 import (
 	"bytes"
+	"crypto/ecdh"
 	"crypto/sha256"
 	"crypto/sha512"
 	"encoding/binary"
@@ -27,6 +28,7 @@ import (
 	"github.com/pion/dtls/v3/internal/ciphersuite"
 	dtlsstate "github.com/pion/dtls/v3/internal/state"
 	ref "github.com/pion/dtls/v3/internal/zzverifref"
+	pelliptic "github.com/pion/dtls/v3/pkg/crypto/elliptic"
 	"github.com/pion/dtls/v3/pkg/crypto/keyschedule"
 	"github.com/pion/dtls/v3/pkg/crypto/prf"
 	"github.com/pion/dtls/v3/pkg/protocol"
@@ -78,6 +80,61 @@ func vfC10PRF(res *vfResult, n int) {
 		}
 		res.Count("prf_draws", 1)
 		res.NonTrivial(fmt.Sprintf("prf/%d", i))
+	}
+}
+
+// vfC10KeyAgreement: the library's (EC)DHE premaster secrets against crypto/ecdh and the RFC 5489 layout, for
+// ordinary key pairs and for pairs whose shared secret begins with a zero byte (the leading zero belongs to Z).
+func vfC10KeyAgreement(res *vfResult, perCurve int) {
+	type cv struct {
+		name string
+		id   pelliptic.Curve
+		std  ecdh.Curve
+	}
+	for _, c := range []cv{{"x25519", pelliptic.X25519, ecdh.X25519()}, {"p256", pelliptic.P256, ecdh.P256()}, {"p384", pelliptic.P384, ecdh.P384()}} {
+		zeros, tries := 0, 0
+		for i := 0; (i < perCurve || zeros < 2) && tries < 6000; i++ {
+			tries++
+			a, err1 := pelliptic.GenerateKeypair(c.id)
+			b, err2 := pelliptic.GenerateKeypair(c.id)
+			if err1 != nil || err2 != nil {
+				continue
+			}
+			priv, err := c.std.NewPrivateKey(a.PrivateKey)
+			if err != nil {
+				continue
+			}
+			pub, err := c.std.NewPublicKey(b.PublicKey)
+			if err != nil {
+				continue
+			}
+			z, err := priv.ECDH(pub)
+			if err != nil {
+				continue
+			}
+			lead := z[0] == 0
+			if i >= perCurve && !lead {
+				continue // past the ordinary draws only leading-zero secrets are of interest
+			}
+			if lead {
+				zeros++
+			}
+			res.Eval(1)
+			got, err := prf.PreMasterSecret(b.PublicKey, a.PrivateKey, c.id)
+			if err != nil || !bytes.Equal(got, z) {
+				vfC10Bad(res, fmt.Sprintf("%s shared secret differs from crypto/ecdh (leading zero byte: %v, lengths %d vs %d, err %v)", c.name, lead, len(got), len(z), err), "prf.PreMasterSecret:"+c.name, nil)
+			}
+			psk := []byte("vf-c10-psk-" + c.name)
+			gotPSK, err := prf.EcdhePSKPreMasterSecret(psk, b.PublicKey, a.PrivateKey, c.id)
+			if err != nil || !bytes.Equal(gotPSK, ref.ECDHEPSKPreMaster(z, psk)) {
+				vfC10Bad(res, fmt.Sprintf("%s ECDHE_PSK premaster secret differs from RFC 5489 (leading zero byte in Z: %v, err %v)", c.name, lead, err), "prf.EcdhePSKPreMasterSecret:"+c.name, nil)
+			}
+			res.Count("key_agreements_checked", 1)
+			if lead {
+				res.Count("key_agreements_with_leading_zero_secret", 1)
+			}
+		}
+		res.NonTrivial("keyagreement/" + c.name)
 	}
 }
 
@@ -991,6 +1048,7 @@ func TestVF_C10(t *testing.T) {
 	res.Count("reference_vectors_ok", 1)
 	draws := vfPick(300, 20000)
 	vfC10PRF(res, draws)
+	vfC10KeyAgreement(res, vfPick(40, 400))
 	var jobs []func()
 	for _, si := range vfSuites12 {
 		si := si
